@@ -21,6 +21,7 @@ Proof.
   intros s nlen addr olen opts ovr Hfx H. unfold reallocate.
   destruct (negb (Z.land addr (blkmask s) =? 0) || negb (Z.land olen (blkmask s) =? 0));
     [repeat split; intros Hc; discriminate Hc|].
+  destruct (fx_recheck (vr s) && (nlen <? 0)); [repeat split; intros Hc; discriminate Hc|].
   destruct (shr (IW_ROUNDUP nlen (pow2 (bpow s))) (bpow s) =? blk_of s olen) eqn:E;
     [repeat split; intros _; apply Z.eqb_eq; exact E|].
   rewrite Hfx. simpl andb.
@@ -366,16 +367,21 @@ Proof.
   intros s nlen addr olen opts ovr. unfold reallocate.
   destruct (negb (Z.land addr (blkmask s) =? 0) || negb (Z.land olen (blkmask s) =? 0)); [apply mono_refl|].
   set (nb := shr (IW_ROUNDUP nlen (pow2 (bpow s))) (bpow s)). set (ob := blk_of s olen). set (ab := blk_of s addr).
+  destruct (fx_recheck (vr s) && (nlen <? 0)); [apply mono_refl|].
   destruct (nb =? ob); [apply mono_refl|].
   destruct (fx_realloc (vr s) && (ob <? 1)); [apply mono_refl|].
   destruct (fx_realloc (vr s) && touches_meta s ab ob); [apply mono_refl|].
   destruct (nb <? ob).
   - pose proof (loc_blk_deallocate s (ab + nb) (ob - nb)) as H.
     destruct (blk_deallocate s (ab + nb) (ob - nb)) as [rc s1]. simpl in H. destruct (rc =? 0); apply mono_loc; exact H.
-  - pose proof (mono_blk_allocate s nb ab opts ovr) as H.
+  - destruct (negb ((if fx_recheck (vr s) then fst (set_bit_status s ab ob false true (strict s)) else 0) =? 0)); [apply mono_refl|].
+    pose proof (mono_blk_allocate s nb ab opts ovr) as H.
     destruct (blk_allocate s nb ab opts ovr) as [[[rc s1] naddr] sp]. simpl in H.
     destruct (negb (rc =? 0)); [exact H|].
-    destruct (negb (naddr =? ab) && negb (ensure_ok s1 (shl naddr (bpow s) + uw 64 olen))); [exact H|].
+    assert (Hrel : mono s (snd (blk_deallocate s1 naddr sp))) by (eapply mono_trans; [exact H|apply mono_loc; apply loc_blk_deallocate]).
+    destruct (fx_recheck (vr s) && negb (IW_RANGES_OVERLAP ab (ab + ob) (shr (bmoff s1) (bpow s)) (shr (bmoff s1) (bpow s) + shr (bmlen s1) (bpow s)) =? 0)); [exact Hrel|].
+    destruct (negb (naddr =? ab) && negb (ensure_ok s1 (shl naddr (bpow s) + uw 64 olen)));
+      [destruct (fx_recheck (vr s)); [exact Hrel|exact H]|].
     set (s1' := if negb (naddr =? ab) then ensure_size s1 (shl naddr (bpow s) + uw 64 olen) else s1).
     assert (H1 : mono s s1').
     { eapply mono_trans; [exact H|]. apply mono_loc. unfold s1'. destruct (negb (naddr =? ab)); [apply loc_ensure_size|apply loc_refl]. }
@@ -803,6 +809,7 @@ Proof.
   destruct (negb (Z.land addr (blkmask s) =? 0) || negb (Z.land olen (blkmask s) =? 0)); [intros _; exact Hf|].
   set (nb := shr (IW_ROUNDUP nlen (pow2 (bpow s))) (bpow s)).
   set (ob := blk_of s olen) in *. set (ab := blk_of s addr) in *.
+  destruct (fx_recheck (vr s) && (nlen <? 0)); [intros _; exact Hf|].
   destruct (nb =? ob) eqn:Eq; [intros _; exact Hf|].
   destruct (fx_realloc (vr s) && (ob <? 1)); [intros _; exact Hf|].
   destruct (fx_realloc (vr s) && touches_meta s ab ob) eqn:Eg; [intros _; exact Hf|].
@@ -822,12 +829,22 @@ Proof.
     destruct (blk_deallocate s (ab + nb) (ob - nb)) as [rc s1]. simpl in *. subst rc. simpl. exact F.
   - apply Z.ltb_ge in Elt. apply Z.eqb_neq in Eq.
     assert (Hpos : 0 < nb) by lia.
+    destruct (negb ((if fx_recheck (vr s) then fst (set_bit_status s ab ob false true (strict s)) else 0) =? 0)); [intros _; exact Hf|].
     pose proof (blk_allocate_full s nb ab opts ovr Hf Hpos) as H. cbv zeta in H.
-    destruct (blk_allocate s nb ab opts ovr) as [[[rc s1] naddr] sp]. simpl in H.
+    pose proof (hk_blk_allocate s nb ab opts ovr) as Hk.
+    destruct (blk_allocate s nb ab opts ovr) as [[[rc s1] naddr] sp]. simpl in H, Hk.
     destruct (negb (rc =? 0)) eqn:Erc; [simpl; intros Hbd; apply H; exact Hbd|].
     apply negb_false_iff in Erc. apply Z.eqb_eq in Erc. subst rc.
+    (* the new region given back (fixes/fsm-realloc-recheck.diff) *)
+    assert (Hrel : bmlen (snd (blk_deallocate s1 naddr sp)) * 16 <= FSM_BKEY_MAX -> Full (snd (blk_deallocate s1 naddr sp))).
+    { pose proof (loc_blk_deallocate s1 naddr sp) as Hl2. intros Hbd. rewrite (loc_bmlen _ _ Hl2) in Hbd.
+      destruct (H Hbd) as [HF1 HS]. destruct (HS eq_refl) as (sg & G1 & G2 & G3 & _). simpl in G3.
+      destruct (carved_release sg s1 naddr sp (fu_good sg G1) (fu_bm sg G1) G3) as (I2 & B2' & C2 & K2).
+      apply (full_cfg sg); [exact G1|exact I2|exact B2'|eapply hs_loc; [exact Hl2|apply HF1]|
+                            apply (hdrarea_keeps sg); [apply G1|apply G1|exact C2|exact K2]|exact C2]. }
+    destruct (fx_recheck (vr s) && negb (IW_RANGES_OVERLAP ab (ab + ob) (shr (bmoff s1) (bpow s)) (shr (bmoff s1) (bpow s) + shr (bmlen s1) (bpow s)) =? 0)); [simpl; exact Hrel|].
     destruct (negb (naddr =? ab) && negb (ensure_ok s1 (shl naddr (bpow s) + uw 64 olen)));
-      [simpl; intros Hbd; apply H; exact Hbd|].
+      [simpl; destruct (fx_recheck (vr s)); [exact Hrel|intros Hbd; apply H; exact Hbd]|].
     set (s1' := if negb (naddr =? ab) then ensure_size s1 (shl naddr (bpow s) + uw 64 olen) else s1).
     assert (Hb1 : bmlen s1' = bmlen s1).
     { unfold s1'. destruct (negb (naddr =? ab)); [apply (loc_bmlen _ _ (loc_ensure_size _ _))|reflexivity]. }
@@ -1249,7 +1266,7 @@ Lemma reopen_full : forall s st mm, Full s -> Full (reopen s st mm).
 Proof.
   intros s st mm Hf. pose proof Hf as [(Hi & Hwf & Hfx) Hba Hh Hp Hhd Hha].
   destruct (reopen_same s st mm (proj2 (hs_iff s) Hh) (inv_len s Hi) (inv_u32 s Hi) Hwf Hfx) as (Hg & E1 & E2 & E3 & E4 & E5 & _).
-  assert (Ea : aunit (reopen s st mm) = aunit s) by (unfold reopen; destruct (geo_load_fsm (mkFsm (disk_bm s) [] 0 0 (p_bmoff s) (p_bmlen s) (hdrlen s) (bpow s) (aunit s) (fsize s) (p_crzsum s) (p_crznum s) (p_crzsum s) (p_crznum s) (p_bmoff s) (p_bmlen s) (maxoff s) st (mkVariant (fx_lfbk (vr s)) (fx_strict (vr s)) (fx_sync (vr s)) (fx_short (vr s)) (fx_realloc (vr s)) (fx_hint (vr s)) (fx_leak (vr s)) mm))) as [_ Ha]; exact Ha).
+  assert (Ea : aunit (reopen s st mm) = aunit s) by (unfold reopen; destruct (geo_load_fsm (mkFsm (disk_bm s) [] 0 0 (p_bmoff s) (p_bmlen s) (hdrlen s) (bpow s) (aunit s) (fsize s) (p_crzsum s) (p_crznum s) (p_crzsum s) (p_crznum s) (p_bmoff s) (p_bmlen s) (maxoff s) st (mkVariant (fx_lfbk (vr s)) (fx_strict (vr s)) (fx_sync (vr s)) (fx_short (vr s)) (fx_realloc (vr s)) (fx_hint (vr s)) (fx_leak (vr s)) (fx_recheck (vr s)) mm))) as [_ Ha]; exact Ha).
   constructor; [exact Hg| |apply hs_reopen| |rewrite E4; exact Hhd|].
   - unfold BmArea, nbits. rewrite E1, E2, E3, E5. exact Hba.
   - unfold PageLen. rewrite E3, Ea. exact Hp.
@@ -1403,3 +1420,73 @@ Proof.
   split; [vm_compute; reflexivity|]. split; [apply ok_allb_sound; vm_compute; reflexivity|].
   cbv zeta. split; [vm_compute; reflexivity|dec_goal].
 Qed.
+
+(* ================================================================ round 7: reallocate of a range the caller does not own *)
+(* code after fixes/fsm-realloc-recheck.diff *)
+Theorem realloc_negative_refused : forall s nlen addr olen opts ovr, fx_recheck (vr s) = true -> nlen < 0 ->
+  let '(rc, s', a, l) := reallocate s nlen addr olen opts ovr in rc <> 0 /\ s' = s /\ a = addr /\ l = olen.
+Proof.
+  intros s nlen addr olen opts ovr Hfx Hn. unfold reallocate.
+  destruct (negb (Z.land addr (blkmask s) =? 0) || negb (Z.land olen (blkmask s) =? 0)); [repeat split; vm_compute; discriminate|].
+  rewrite Hfx. replace (nlen <? 0) with true by (symmetry; apply Z.ltb_lt; exact Hn). simpl. repeat split. vm_compute. discriminate.
+Qed.
+
+(* strict mode: a growing reallocate whose old range holds a free block is refused BEFORE anything is taken for the new region *)
+Theorem realloc_strict_unowned_refused : forall s nlen addr olen opts ovr, fx_recheck (vr s) = true -> strict s = true ->
+  Z.land addr (blkmask s) = 0 -> Z.land olen (blkmask s) = 0 -> 0 <= nlen ->
+  blk_of s olen < shr (IW_ROUNDUP nlen (pow2 (bpow s))) (bpow s) ->
+  0 <= blk_of s addr -> 0 <= blk_of s olen -> blk_of s addr + blk_of s olen <= nbits s -> len_z (bm s) = nbits s ->
+  (exists i, blk_of s addr <= i < blk_of s addr + blk_of s olen /\ getb (bm s) i = false) ->
+  let '(rc, s', a, l) := reallocate s nlen addr olen opts ovr in rc <> 0 /\ s' = s /\ a = addr /\ l = olen.
+Proof.
+  intros s nlen addr olen opts ovr Hfx Hst Ha Ho Hn Hlt H0 H1 H2 Hlen (i & Hi & Hb). unfold reallocate. rewrite Ha, Ho. simpl negb. simpl orb. cbv iota.
+  rewrite Hfx. replace (nlen <? 0) with false by (symmetry; apply Z.ltb_ge; exact Hn). simpl andb. cbv iota.
+  set (nb := shr (IW_ROUNDUP nlen (pow2 (bpow s))) (bpow s)) in *. set (ob := blk_of s olen) in *. set (ab := blk_of s addr) in *.
+  replace (nb =? ob) with false by (symmetry; apply Z.eqb_neq; lia).
+  destruct (fx_realloc (vr s) && (ob <? 1)); [repeat split; vm_compute; discriminate|].
+  destruct (fx_realloc (vr s) && touches_meta s ab ob); [repeat split; vm_compute; discriminate|].
+  replace (nb <? ob) with false by (symmetry; apply Z.ltb_ge; lia).
+  assert (Hall : all_range (bm s) ab ob (negb false) = false).
+  { destruct (all_range (bm s) ab ob (negb false)) eqn:E; [|reflexivity].
+    pose proof (proj1 (all_range_spec (bm s) ab ob (negb false) ltac:(lia) ltac:(lia) ltac:(lia)) E) as E'.
+    rewrite E' in Hb by exact Hi. discriminate. }
+  assert (Hpre : fst (set_bit_status s ab ob false true (strict s)) = IWFS_ERROR_FSM_SEGMENTATION).
+  { unfold set_bit_status. replace (nbits s <? ab + ob) with false by lia. rewrite Hst, Hall. reflexivity. }
+  rewrite Hpre. replace (negb (IWFS_ERROR_FSM_SEGMENTATION =? 0)) with true by reflexivity. cbv iota.
+  repeat split. vm_compute. discriminate.
+Qed.
+
+(* the code as it is (v_head7 = /repo in round 7), strict mode, new file: blocks 128..383 were never allocated; reallocate(3 MB,
+   &a = 8192, &l = 16384) answers 0: the request grew the bitmap, the new bitmap was put at blocks 128..255 - inside the "old
+   region" - and the final release of that region freed the live bitmap *)
+Theorem realloc_unowned_refuted : exists s, strict s = true /\ all_range (bm s) 128 256 false = true /\
+  (let r := reallocate s 3145728 8192 16384 1 false in
+   rc_of r = 0 /\ (bmoff (state_of r), bmlen (state_of r)) = (8192, 8192) /\ getb (bm (state_of r)) 128 = false /\
+   ~ BmArea (state_of r)).
+Proof.
+  exists (snd (open_new_max v_head7 6 0 0 0 true)). split; [reflexivity|]. split; [vm_compute; reflexivity|]. cbv zeta.
+  set (s1 := state_of (reallocate (snd (open_new_max v_head7 6 0 0 0 true)) 3145728 8192 16384 1 false)).
+  split; [vm_compute; reflexivity|]. split; [vm_compute; reflexivity|].
+  assert (Hb : getb (bm s1) 128 = false) by (vm_compute; reflexivity). split; [exact Hb|].
+  intros (_ & _ & _ & _ & B). rewrite (B 128) in Hb; [discriminate|]. split; dec_goal.
+Qed.
+
+(* a negative new length wraps to "zero blocks": the whole region is released and the call answers 0 *)
+Theorem realloc_negative_refuted : exists s, getb (bm s) 128 = true /\
+  (let r := reallocate s (-1) 8192 4096 0 false in rc_of r = 0 /\ len_of r = 0 /\ getb (bm (state_of r)) 128 = false).
+Proof.
+  exists (state_of (allocate (snd (open_new_max v_head7 6 0 0 0 false)) 4096 0 11 false)).
+  split; [vm_compute; reflexivity|]. cbv zeta. split; [vm_compute; reflexivity|]. split; vm_compute; reflexivity.
+Qed.
+
+(* the same calls on the model of the code after the patch: strict - refused, nothing changes; non-strict - refused, the bitmap
+   has grown (that part of the request was legitimate) but it is intact and the new region has been given back *)
+Example realloc_unowned_fixed :
+  (let r := reallocate (snd (open_new_max v_fixed 6 0 0 0 true)) 3145728 8192 16384 1 false in
+   (rc_of r, bmlen (state_of r), tree (state_of r)) = (IWFS_ERROR_FSM_SEGMENTATION, 4096, [(62, 2); (32640, 128)])) /\
+  (let r := reallocate (snd (open_new_max v_fixed 6 0 0 0 false)) 3145728 8192 16384 1 false in
+   (rc_of r, bmoff (state_of r), bmlen (state_of r), tree (state_of r)) =
+   (IWFS_ERROR_FSM_SEGMENTATION, 8192, 8192, [(126, 2); (65280, 256)]) /\ getb (bm (state_of r)) 128 = true) /\
+  rc_of (reallocate (state_of (allocate (snd (open_new_max v_fixed 6 0 0 0 false)) 4096 0 11 false)) (-1) 8192 4096 0 false)
+    = FSM_IW_ERROR_INVALID_ARGS.
+Proof. cbv zeta. split; [vm_compute; reflexivity|]. split; [split; vm_compute; reflexivity|vm_compute; reflexivity]. Qed.
